@@ -91,7 +91,7 @@ class Imputer(_SeriesToSeriesTransformer):
         Z = check_series(Z)
 
         # replace missing_values with np.nan
-        if self.missing_values:
+        if self.missing_values is not None:
             Z = Z.replace(to_replace=self.missing_values, value=np.nan)
 
         if self.method == "random":
